@@ -273,8 +273,11 @@ def gen_history(r, P, impl):
             table = None
             if prio == "table":
                 table = []
+                big = r.random() < 0.15      # exact integer ranks beyond float precision (a user function may return ints)
                 for jid in impl.jobs:
                     n, d = r.choice([(0, 1), (1, 1), (1, 1), (2, 1), (-1, 1), (1, 2), (3, 1), (3, 2), (-5, 2)])
+                    if big and d == 1 and n > 0:
+                        n = 10**18 + r.randrange(0, 50)
                     table.append((jid, n, d))
             op = ("EXEC", r.random() < P.p_force, table)
         ops.append(op)
